@@ -607,8 +607,10 @@ class Runner:
                 os.close(fd)
         return dict(code=rc, out=out, err=err.decode("utf-8", "replace"), timeout=to, ledger=led)
 
+    _count = __import__("itertools").count(1)      # one numbering for all runners of the process (they share the scratch directory)
+
     def newdir(self):
-        self.n += 1
+        self.n = next(Runner._count)
         d = os.path.join(self.root, "p%06d" % self.n)
         os.makedirs(d)
         return d
